@@ -4,6 +4,7 @@ package srvx
 
 import (
 	"context"
+	"encoding/hex"
 	"errors"
 	"fmt"
 	"io"
@@ -44,6 +45,11 @@ type Scenario struct {
 	ControlAt   int        `json:"control_at"`    // controller acts after this many completed client ops (all clients together)
 	Frames      []string   `json:"frames"`        // optional: catalogue frame name per client (default fc3)
 	PanicOnConn int        `json:"panic_on_conn"` // handler panics only on this connection id (0 = per Handler mode)
+	// Expect, when set for client i, lists (hex) exactly the reply frames that client must have received by the end
+	// (used with the raw ops write:<hex>, drain, check:<n>, recvall:<k>).
+	Expect [][]string `json:"expect,omitempty"`
+	// HandlerByConn overrides Handler per connection id: "panic", "nil-nil", "generic-error", "typed-error"
+	HandlerByConn map[int]string `json:"handler_by_conn,omitempty"`
 }
 
 // V is one oracle failure.
@@ -77,6 +83,7 @@ type clientState struct {
 	conn     *memnet.Conn
 	dialErr  error
 	sent     [][]byte
+	rawSent  []byte
 	got      [][]byte // complete reply frames
 	partial  []byte
 	eof      bool
@@ -254,16 +261,13 @@ func (r *run) main() {
 			r.info(connID(remote)).closeCbs++
 		}
 	}
-	r.h.Hook = func() {
+	r.h.HookCtx = func(ctx context.Context) {
 		if vsched.Aborted() {
 			return
 		}
-		// which connection? the newest handler call belongs to the thread's connection: found through the frame's tid
-		f := r.h.Calls[len(r.h.Calls)-1].Frame
-		cl := int(f[0]>>4) - 1
 		id := 0
-		if cl >= 0 && cl < len(r.clients) && r.clients[cl].conn != nil {
-			id = r.clients[cl].conn.ID()
+		if a, ok := ctx.Value(server.ContextRemoteAddr{}).(net.Addr); ok {
+			id = connID(a)
 		}
 		ci := r.info(id)
 		ci.handlerSt++
@@ -278,6 +282,21 @@ func (r *run) main() {
 		if sc.PanicOnConn != 0 && id == sc.PanicOnConn {
 			ci.panicked = true
 			panic("handler panic (harness)")
+		}
+		if m, ok := sc.HandlerByConn[id]; ok {
+			switch m {
+			case "panic":
+				ci.panicked = true
+				panic("handler panic (harness)")
+			case "nil-nil":
+				ci.panicked = true
+				r.h.Mode = "nil-nil-once"
+			case "generic-error":
+				r.h.Mode = "generic-error-once"
+			case "typed-error":
+				r.h.Mode = "typed-error-once"
+				r.h.Code = 4
+			}
 		}
 		if r.h.Mode == "panic" || r.h.Mode == "nil-nil" {
 			ci.panicked = true
@@ -433,6 +452,46 @@ func (r *run) client(i int) {
 			} else {
 				cs.conn.Write(b)
 			}
+		case strings.HasPrefix(op, "write:"):
+			if cs.conn == nil {
+				return
+			}
+			b, err := hex.DecodeString(op[6:])
+			if err != nil {
+				panic(err)
+			}
+			cs.rawSent = append(cs.rawSent, b...)
+			cs.conn.Write(b)
+		case op == "drain":
+			// wait until the server has taken everything written so far out of the connection
+			if cs.conn != nil {
+				srv := cs.conn.Peer()
+				vsched.BlockH("client.drain", func() bool { return srv.Pending() == 0 || srv.IsClosed() }, 0)
+			}
+		case strings.HasPrefix(op, "check:"):
+			// after quiescence: exactly this many reply bytes must have arrived (nothing early, nothing missing)
+			want, _ := strconv.Atoi(op[6:])
+			if cs.conn != nil {
+				have := cs.conn.Pending() + len(cs.partial)
+				for _, g := range cs.got {
+					have += len(g)
+				}
+				if have != want {
+					kind := "reply-before-request-complete"
+					if have < want {
+						kind = "request-unanswered-at-quiescence"
+					}
+					r.fail(kind, fmt.Sprintf("client %d: after writing %d stream bytes and letting the server settle, %d reply bytes have arrived, the completed requests account for %d", i, len(cs.rawSent), have, want), nil)
+				}
+			}
+		case strings.HasPrefix(op, "recvall:"):
+			if cs.conn == nil {
+				return
+			}
+			k, _ := strconv.Atoi(op[8:])
+			for len(cs.got) < k && !cs.eof && !cs.timedOut && cs.rerr == "" {
+				r.recv(cs)
+			}
 		case op == "recv":
 			if cs.conn == nil {
 				return
@@ -558,6 +617,25 @@ func (r *run) atQuiescence() {
 	}
 	for _, scn := range r.net.Conns {
 		ci := r.conn[scn.ID()]
+		if ci != nil && ci.panicked {
+			if !scn.IsClosed() {
+				r.fail("connection-open-after-handler-panic", fmt.Sprintf("the handler panicked on connection %d; the system is quiescent but the server has not closed that connection", scn.ID()), nil)
+			}
+			if r.sc.Callbacks&CbError != 0 {
+				told := false
+				for _, e := range r.onErrors {
+					if strings.Contains(e, "panic") {
+						told = true
+					}
+				}
+				if !told {
+					r.fail("panic-not-reported", fmt.Sprintf("the handler panicked on connection %d but OnErrorFunc was not told (calls: %v)", scn.ID(), r.onErrors), nil)
+				}
+			}
+		}
+	}
+	for _, scn := range r.net.Conns {
+		ci := r.conn[scn.ID()]
 		if ci != nil && ci.rejected && !scn.IsClosed() {
 			r.fail("rejected-connection-open", fmt.Sprintf("connection %d was rejected by OnAcceptConnFunc but is still open at quiescence", scn.ID()), nil)
 		}
@@ -622,6 +700,26 @@ func (r *run) final() {
 	r.res.Accepted = nAcc
 	// replies
 	for i, cs := range r.clients {
+		if i < len(sc.Expect) && sc.Expect[i] != nil {
+			var got []string
+			for _, g := range cs.got {
+				r.res.Replies++
+				got = append(got, hex.EncodeToString(g))
+			}
+			if len(cs.partial) > 0 {
+				got = append(got, "partial:"+hex.EncodeToString(cs.partial))
+			}
+			if strings.Join(got, ",") != strings.Join(sc.Expect[i], ",") {
+				kind := "wrong-replies"
+				if len(got) < len(sc.Expect[i]) && strings.HasPrefix(strings.Join(sc.Expect[i], ","), strings.Join(got, ",")) {
+					kind = "request-unanswered"
+				} else if len(got) > len(sc.Expect[i]) {
+					kind = "extra-reply"
+				}
+				r.fail2(kind, fmt.Sprintf("client %d received replies [%s], reference [%s] (eof=%v timeout=%v)", i, strings.Join(got, ","), strings.Join(sc.Expect[i], ","), cs.eof, cs.timedOut), nil)
+			}
+			continue
+		}
 		for j, got := range cs.got {
 			r.res.Replies++
 			if j >= len(cs.sent) {
@@ -658,13 +756,13 @@ func (r *run) final() {
 	}
 	// a reply must reach a client that kept its connection open, sent a valid request and waited, when neither
 	// shutdown nor cancel nor a panicking handler was involved
-	if !r.shutCalled && sc.Control != "cancel" && sc.Handler != "panic" && sc.Handler != "nil-nil" && sc.PanicOnConn == 0 {
+	if !r.shutCalled && sc.Control != "cancel" && sc.Handler != "panic" && sc.Handler != "nil-nil" {
 		for i, cs := range r.clients {
 			ci := (*connInfo)(nil)
 			if cs.conn != nil {
 				ci = r.conn[cs.conn.ID()]
 			}
-			if ci == nil || ci.rejected {
+			if ci == nil || ci.rejected || ci.panicked || (i < len(sc.Expect) && sc.Expect[i] != nil) {
 				continue
 			}
 			want := 0
